@@ -98,6 +98,10 @@ def run(ctx: Ctx) -> None:
         ctx.sample({"formula": matlib.render_formula(c["written"], c["icpt"]), "frame": c["fid"], "names": c["names"], "cells": c["cells"],
                     "executed_on": "entry points x outputs x materializers"})
     ctx.exhaustive = True
+    # leg T: random cases on random (entry point, output, materializer) combinations, validated by TLC
+    from .. import mattrace
+
+    mattrace.run(ctx, 1200 if ctx.quick else 20000, "c05", judge=lambda v: v in ("column-names", "cells", "unexpected-exception", "number-of-rows"))
 
 
 def replay(path: str) -> int:
